@@ -39,7 +39,7 @@ TRUSTED = [
 ]
 ASSUMPTIONS = ['the ClientStateMachine needs its .request attribute set by the caller before parse() (API precondition)']
 RULE = ('grammar-aware mutations of valid requests/responses with a token dictionary (invalid escapes, over-long UTF-8, "=?" look-alikes, C0/8-bit octets, unknown/unimplemented codings, corrupt and valid gzip/deflate bodies, absurd lengths, Host forms, RFC 2231 continuations) '
-	'x fragmentations; deep inputs (thousands of tiny chunks / header lines / pipelined messages / trailers) under a lowered recursion limit; huge numerals; non-trivial = an HTTP error or a delivery; distinct by outcome line')
+	'x fragmentations; every token and every codec name as value / parameter / list member of every field the parser consults; work bound: long runs with hostile tails in every regex-validated position, each parse under a wall-clock budget in a child interpreter; deep inputs (thousands of tiny chunks / header lines / pipelined messages / trailers) under a lowered recursion limit; huge numerals; non-trivial = an HTTP error or a delivery; distinct by outcome line')
 BATCH = 4000
 
 SEEDS = [
@@ -95,6 +95,8 @@ def cases(rng, tier):
 		combos = rng.sample(combos, 6000)
 	for f, t, tm, b in combos:
 		yield ('s', 'server', b % (f, tm % t), ((),))
+	# work bound (oracle only): long runs with a hostile tail in every position a regular expression looks at
+	yield ('work', 0 if tier == 'quick' else 1)
 	# depth / size stress (oracle only)
 	for kind in ('chunks', 'headers', 'pipeline', 'trailers', 'continuations', 'conn-elements', 'params'):
 		yield ('deep', kind, 3000 if tier == 'quick' else 40000)
@@ -148,6 +150,90 @@ def deep_input(kind, n):
 		return 'server', b'POST / HTTP/1.1\r\nHost: h\r\nContent-Type: text/plain' + b''.join(b'; p%d="v"' % i for i in range(min(n, 600))) + b'\r\nContent-Length: 0\r\n\r\n', 1
 
 
+RUNS = [b'a' * 40, b'a.' * 20, b'a' * 3000, b'1' * 40, b' ' * 40, b'\t ' * 20, b'"' * 40, b'\\"' * 20, b',' * 40, b';' * 40, b'=' * 40, b'%' * 40, b'=?' * 20, b'a=b;' * 12, b'a-' * 20, b'a b' * 14, b'.' * 40, b'%41' * 20]
+TAILS = [b'', b'\x01', b' ', b'"', b'/', b'=', b'..', b'\x7f', b'\\', b'\xff', b';', b'*']
+WORK_BUDGET = 15.0
+
+
+def work_inputs(full):
+	out = []
+	for run in RUNS:
+		for tail in TAILS:
+			v = run + tail
+			for f in FIELDS:
+				if f == b'Host':
+					out.append(('server', b'POST / HTTP/1.1\r\nHost: %s\r\nContent-Length: 0\r\n\r\n' % v, 0))
+					out.append(('server', b'POST / HTTP/1.1\r\nHost: %s:80\r\nContent-Length: 0\r\n\r\n' % v, 0))
+					out.append(('server', b'POST / HTTP/1.1\r\nHost: [%s]\r\nContent-Length: 0\r\n\r\n' % v, 0))
+				else:
+					out.append(('server', b'POST / HTTP/1.1\r\nHost: h\r\n%s: %s\r\nContent-Length: 0\r\n\r\n' % (f, v), 0))
+					out.append(('server', b'POST / HTTP/1.1\r\nHost: h\r\n%s: x; p=%s\r\nContent-Length: 0\r\n\r\n' % (f, v), 0))
+			out.append(('server', b'POST /%s HTTP/1.1\r\nHost: h\r\n\r\n' % v, 0))
+			out.append(('server', b'POST /?%s HTTP/1.1\r\nHost: h\r\n\r\n' % v, 0))
+			out.append(('server', b'POST http://%s/ HTTP/1.1\r\nHost: h\r\n\r\n' % v, 0))
+			out.append(('server', b'%s / HTTP/1.1\r\nHost: h\r\n\r\n' % v, 0))
+			out.append(('server', b'GET / HTTP/%s\r\nHost: h\r\n\r\n' % v, 0))
+			out.append(('server', b'GET / HTTP/1.1\r\n%s: x\r\n\r\n' % v, 0))
+			out.append(('client', b'HTTP/1.1 200 %s\r\nContent-Length: 0\r\n\r\n' % v, 0))
+			out.append(('client', b'HTTP/1.1 %s\r\nContent-Length: 0\r\n\r\n' % v, 0))
+			out.append(('server', b'POST / HTTP/1.1\r\nHost: h\r\nTransfer-Encoding: chunked\r\n\r\n%s\r\n' % v, 0))
+			if full and len(v) < 100:
+				out.append(('server', b'POST / HTTP/1.1\r\nHost: %s\r\nContent-Length: 0\r\n\r\n' % v, 1))
+	return out
+
+
+def work_oracle(full):
+	import os
+	import select
+	import subprocess
+	inputs = work_inputs(full)
+	here = os.path.dirname(os.path.dirname(os.path.abspath(__file__)))
+	p = subprocess.Popen([sys.executable, os.path.join(here, 'work_worker.py')], stdin=subprocess.PIPE, stdout=subprocess.PIPE)
+	import threading
+	payload = ''.join('%s %s %d\n' % (side, data.hex(), mode) for side, data, mode in inputs).encode()
+
+	def feed():
+		try:
+			p.stdin.write(payload)
+			p.stdin.close()
+		except Exception:
+			pass
+	threading.Thread(target=feed, daemon=True).start()
+	cur = None
+	buf = b''
+	deadline = time.time() + WORK_BUDGET
+	try:
+		while True:
+			r, _, _ = select.select([p.stdout], [], [], max(0.0, deadline - time.time()))
+			if not r:
+				side, data, mode = inputs[cur if cur is not None else 0]
+				return {'what': 'parse() still busy after %.0f s on an input of %d octets: the work is not bounded by the size of the input' % (WORK_BUDGET, len(data)), 'side': side, 'stream': data.hex(), 'per_octet': mode, 'finding': None}
+			chunk = os.read(p.stdout.fileno(), 65536)
+			if not chunk:
+				break
+			buf += chunk
+			*lines, buf = buf.split(b'\n')
+			for ln in lines:
+				w = ln.split()
+				if w[0] == b'start':
+					cur = int(w[1])
+					deadline = time.time() + WORK_BUDGET
+				elif w[0] == b'done':
+					name = w[2].decode()
+					if name != 'ok' and not allowed(name):
+						side, data, mode = inputs[int(w[1])]
+						return {'what': 'parse() raised %s' % name, 'side': side, 'stream': data.hex(), 'cuts': [], 'finding': None}
+	finally:
+		try:
+			p.kill()
+		except Exception:
+			pass
+		p.wait()
+	if cur != len(inputs) - 1:
+		return {'what': 'work-bound worker stopped after input %r of %d' % (cur, len(inputs)), 'finding': None}
+	return None
+
+
 def allowed(name):
 	if not name.startswith('status:'):
 		return False
@@ -169,6 +255,8 @@ def oracle(case):
 				if not allowed(name):
 					return {'what': 'parse() raised %s: %s' % (name, str(e)[:120]), 'side': side, 'stream': s.hex(), 'cuts': list(c), 'finding': None}
 		return None
+	if case[0] == 'work':
+		return work_oracle(case[1])
 	_, kind, n = case
 	side, data, want = deep_input(kind, n)
 	sm = parserutil.new_sm(side)
@@ -197,6 +285,8 @@ def nontrivial(case, outs):
 		return outs[0][:200]
 	if case[0] == 'deep':
 		return case[1]
+	if case[0] == 'work':
+		return 'work'
 	return None
 
 
